@@ -41,32 +41,33 @@ def effect_const(e):
 def arm_update(body):
     """→ list of ('on', X) | ('off', X) | (slot, colour) | ('reset-all',) ; raises on anything else."""
     ops = []
+    lets = {}
     for s in hir.stmts_of(body):
         s = hir.simp(s)
         if s.get("k") == "tuple" and not s["es"]:
             continue
-        if s.get("k") == "assignop" and s["op"] == "BitOrAssign" and hir.is_local(s["l"], "effects"):
-            c = effect_const(s["r"])
-            if not c:
-                raise Unrecognised("effects |= <not a constant>")
-            ops.append(("on", c))
+        if s.get("k") == "let" and s["pat"].get("k") == "pbind" and "init" in s and "els" not in s:
+            lets[s["pat"].get("id")] = s["init"]     # a temporary for the value stored below
+            continue
+        if s.get("k") == "assignop" and s["op"] in ("BitOrAssign", "SubAssign") and hir.is_local(s["l"], "effects"):
+            keep, one = ac.effects_masks(s["r"], None)
+            if keep:
+                raise Unrecognised("effects op= <not a constant>")
+            ops += [("on" if s["op"] == "BitOrAssign" else "off", n) for n in ac.mask_names(one)]
         elif s.get("k") == "assign" and hir.simp(s["l"]).get("k") == "local":
             name = hir.simp(s["l"])["name"]
             r = hir.simp(s["r"])
             if name == "effects":
-                if hir.is_call(r, "Default::default"):
+                # the new value as a per-bit function of the old one: kept / switched on / switched off
+                keep, one = ac.effects_masks(r, "effects")
+                if keep == 0 and one == 0:
                     ops.append(("effects-default",))
                     continue
-                chain = []
-                while hir.is_call(r, "anstyle::effect::Effects::remove"):
-                    chain.append(effect_const(r["args"][1]))
-                    r = hir.simp(r["args"][0])
-                if not (hir.is_local(r, "effects") and chain and all(chain)):
-                    raise Unrecognised(f"effects = {hirpp.expr(s['r'])[:60]}")
-                ops += [("off", c) for c in chain]
+                ops += [("on", n) for n in ac.mask_names(one)]
+                ops += [("off", n) for n in ac.mask_names(ac.FULL & ~keep & ~one)]
             elif name in LOCALS.values():
                 slot = [k for k, v in LOCALS.items() if v == name][0]
-                ops.append((slot, colour_of(r)))
+                ops.append((slot, colour_of(r, lets)))
             else:
                 raise Unrecognised(f"assignment to {name}")
         else:
@@ -74,14 +75,23 @@ def arm_update(body):
     return ops
 
 
-def colour_of(r):
-    r = hir.simp(r)
+def colour_of(r, lets=None):
+    lets = lets or {}
+
+    def res(x):
+        x = hir.simp(x)
+        n = 0
+        while isinstance(x, dict) and x.get("k") == "local" and x.get("id") in lets and n < 5:
+            x = hir.simp(lets[x["id"]])
+            n += 1
+        return x
+    r = res(r)
     if hir.is_def(r, "Option::None"):
         return ("none",)
     if hir.is_call(r, "Default::default"):
-        return ("default",)
+        return ("none",)       # Option::<Color>::default() is None
     if r.get("ctor", "").endswith("Option::Some"):
-        x = hir.simp(r["args"][0])
+        x = res(r["args"][0])
         if hir.is_call(x, "Into<U>>::into") and x.get("ty") == "anstyle::color::Color":
             v = hir.simp(x["args"][0])
             p = hir.def_path(v)
@@ -176,7 +186,7 @@ def rule_codes(facts, rep):
             continue
         ops = got[0]
         if want == "reset":
-            ok = sorted(ops) == sorted([("effects-default",), ("fg", ("default",)), ("bg", ("default",)), ("underline", ("default",))])
+            ok = sorted(ops) == sorted([("effects-default",), ("fg", ("none",)), ("bg", ("none",)), ("underline", ("none",))])
             why = "0 resets effects and all three colours"
         elif want == "off":
             off = {o[1] for o in ops if o[0] == "off"}
